@@ -1,13 +1,13 @@
 #!/bin/sh
-# tools/process_seed.sh <PROP> <checks...> : confirm A and B in /tmp/seed/<PROP>, then run the given checks (scratch matrix) on each
+# tools/process_seed.sh <PROP> <checks...> : confirm every <tag>.diff in /tmp/seed/<PROP>, then run the given checks (scratch matrix) on each
 P="$1"; shift
-for T in A B; do
+for T in $(ls /tmp/seed/$P/out/*.diff 2>/dev/null | xargs -n1 basename | sed "s/.diff//"); do
   D=/tmp/seed/$P/out/$T.diff
   [ -f "$D" ] || continue
   DEMO=$(ls /tmp/seed/$P/out/${T}_demo.* 2>/dev/null | head -1)
   /verif/tools/confirm_seed.sh /tmp/seed/$P "$D" "$DEMO" 2>&1 | grep CONFIRM | sed "s/^/$P-$T /"
 done
-for T in A B; do
+for T in $(ls /tmp/seed/$P/out/*.diff 2>/dev/null | xargs -n1 basename | sed "s/.diff//"); do
   D=/tmp/seed/$P/out/$T.diff
   [ -f "$D" ] || continue
   /verif/tools/mutant_scratch.sh "$P$T" "$D" "$@" 2>&1 | grep MATRIX &
